@@ -284,9 +284,18 @@ def run_index(acc: Acc, seed: int, idx: int, nq: int, only=None) -> None:
         if r.rc != 0:
             acc.inconclusive.append(f"index {idx}: db create failed rc={r.rc} {r.err[-200:]}")
             return
+        if idx % 3 == 1:
+            from zmon.gen import history as hg
+
+            hg.evolve_files(root, rng)
+            r = db.cli(root, "db", "reindex")
+            if r.rc != 0:
+                acc.inconclusive.append(f"index {idx}: db reindex after edits failed rc={r.rc} {r.err[-200:]}")
+                return
+            acc.count("incrementally_updated_indexes")
         dump = db.dump_index(root)
         uni = rf.Universe(dump.notes)
-        files = {rel: (root / rel).read_text() for rel in z.pages}
+        files = {rel: (root / rel).read_text() for rel in z.pages if (root / rel).exists()}
         combos = [[]] + [[g] for g in GROUPS] + [list(t) for t in itertools.permutations(GROUPS, 2)]
         for qi in range(nq):
             qr = rng_for(ID, seed, f"i{idx}q{qi}")
